@@ -99,7 +99,9 @@ def run(ctx):
                         "sequence_stream (tag SP, harness/circseq.cpp): one Circuit of the same domain (up to 9 cells, 0-4 nets, scale up to 2^16, a fixed "
                         "obstruction inside the rows in 60 %) and 3-9 steps: legalize(params) (first step in 70 %, always the last step), "
                         "placeDetailed(params), setSolution / setCellX / setCellY (60 % on a FIXED cell when there is one), setCellIsFixed / "
-                        "setCellIsObstruction (set, clear, toggle), setRows (edit a row's x range/orientation, drop/add a row), setCellWidth/Height/"
+                        "setCellIsObstruction (set, clear, toggle), setRows (edit a row's x range/orientation, drop/add a row), setupRows (about 9 % of the steps: the "
+                        "bounding box of the rows, the area of an earlier setupRows again with the other initial / alternating orientation, areas shrunk / grown / "
+                        "shifted by up to 2 sites and one row, half / double row height), setCellWidth/Height/"
                         "Orientation, addNet, copy assignment, with computeRows/hpwl/report queries between the steps; every legalize/placeDetailed "
                         "call is judged on the public state right before it (legalb on a normal return when that state is in the python reading of std_design -- narrower than Coq's: no inverted rows, no UNKNOWN/INVALID row orientation; other states are not judged --, "
                         "a failure leaves the placement, no failure when trivially feasible) and repeated on a circuit built from scratch with "
